@@ -137,7 +137,25 @@ def gen_malformed(rng):
     return c
 
 
+def gen_interval(rng):
+    """the interval loop called directly: explicit fixed indices and target integrals"""
+    n = rng.randint(3, 40)
+    x = rng.increasing(n)
+    y = rng.values(n)
+    F = [0]
+    while F[-1] < n - 1:
+        F.append(min(n - 1, F[-1] + rng.choice([1, 2, 2, 3, 4, 7])))
+    if rng.random() < 0.4:
+        F = F[rng.randint(0, 1):len(F) - rng.randint(0, 1)] or [0, n - 1]
+    k = len(F) - 1
+    Is = [rng.dyadic() for _ in range(max(0, k + rng.choice([0, 0, 0, -1, 1])))]
+    return {"kind": "interval", "x": [str(v) for v in x], "y": [str(v) for v in y], "F": F, "Is": [str(v) for v in Is],
+            "target": rng.choice(RULES), "alpha": rng.choice(ALPHAS_INT)}
+
+
 def cases(rng, tier):
+    for _ in range({"quick": 150, "thorough": 2000}.get(tier, 100)):
+        yield gen_interval(rng)
     if tier == "quick":
         nv, nm, maxn = 400, 60, 60
     elif tier == "thorough":
@@ -194,6 +212,11 @@ def pw_points(c):
 
 
 def request(c):
+    if c["kind"] == "interval":
+        x = [Fraction(v) for v in c["x"]]
+        y = [Fraction(v) for v in c["y"]]
+        return (f"loop {c['target']} {c['alpha']} {fmt_list(x)} {fmt_list(y)} {fmt_ints(c['F'])} "
+                f"{fmt_list([Fraction(v) for v in c['Is']])}")
     x, y, xref, yref = vals(c)
     a = c["alpha"]
     pw = pw_field(a, pw_points(c) if not float(a).is_integer() else ())
@@ -204,6 +227,18 @@ def request(c):
 
 def run_impl(c):
     from traffic_weaver.match import integral_matching_reference_stretch
+    if c["kind"] == "interval":
+        from traffic_weaver.match import _interval_integral_matching_stretch
+        x = [Fraction(v) for v in c["x"]]
+        y = [Fraction(v) for v in c["y"]]
+        try:
+            r = _interval_integral_matching_stretch(np.array(floats(x)), np.array(floats(y)),
+                                                    integral_values=[float(Fraction(v)) for v in c["Is"]],
+                                                    fixed_points_indices_in_x=np.array(c["F"]), integral_method=c["target"],
+                                                    alpha=c["alpha"])
+            return {"ok": [float(v) for v in r], "type": type(r).__name__}
+        except Exception as e:  # noqa
+            return {"err": err_kind(e)}
     x, y, xref, yref = vals(c)
     kw = {}
     if c["fpx"] is not None:
@@ -255,6 +290,8 @@ def integ(rule, x, y, s, e):
 
 def preconditions(c):
     """the property's quantifier: distinct fixed points, an interior sample per interval"""
+    if c["kind"] == "interval":
+        return None
     if c["kind"] not in ("valid", "degenerate"):
         return None
     fr = expected_fixed(c)
@@ -269,6 +306,19 @@ def preconditions(c):
 
 
 def oracle(c, io):
+    if c["kind"] == "interval":
+        if "err" in io:
+            return None if not c["Is"] else f"interval matching raised {io['err']}"
+        x = [Fraction(v) for v in c["x"]]
+        F = c["F"]
+        z = [frac(v) for v in io["ok"]]
+        if any(b - a < 2 for a, b in zip(F[:-1], F[1:])):
+            return None
+        for k, (Ik, s_, e_) in enumerate(zip(c["Is"], F[:-1], F[1:])):
+            got = integ(c["target"], x, z, s_, e_)
+            if abs(float(got - Fraction(Ik))) > 1e-8 * max(integ_scale(x, z, s_, e_), abs(float(Fraction(Ik)))):
+                return f"interval {k} ({s_}..{e_}): {c['target']} integral {float(got)!r} != target {float(Fraction(Ik))!r}"
+        return None
     x, y, xref, yref = vals(c)
     if c["kind"] not in ("valid", "degenerate"):
         if c["kind"] in ("bad_target",):
@@ -300,6 +350,8 @@ def oracle(c, io):
 
 
 def tags(c, io, mo):
+    if c["kind"] == "interval":
+        return ["kind=interval", f"rules={c['target']}", f"alpha={c['alpha']}"]
     mode = "indices" if c["fpi"] is not None else ("values" if c["fpx"] is not None else "default")
     t = [f"kind={c['kind']}", f"mode={mode}", f"rules={c['target']}/{c['ref']}", f"alpha={c['alpha']}",
          f"strategy={c['strategy']}", f"n~{min(len(c['x']) // 20 * 20, 100)}"]
